@@ -490,6 +490,41 @@ void h_script_vnacal_new(void)
 	CHECK(vnp->vn_measurement_count == 2 && vnp->vn_equations > eq0, "add_through: recorded");
     }
 #endif
+#ifdef S_UNKNOWN
+    {	/* a standard that introduces an UNKNOWN parameter: a failed call forgets it completely, the repeat registers it once */
+	int calls_before = ghost_err_calls;
+	int hash0, unk0 = vnp->vn_unknown_parameters, std0 = vnp->vn_measurement_count, eq0 = vnp->vn_equations;
+	int u, rc;
+
+	u = vnacal_make_unknown_parameter(vcp, VNACAL_SHORT);
+	if (u == -1) {
+	    FAILED_CLEANLY("make_unknown");
+	    u = vnacal_make_unknown_parameter(vcp, VNACAL_SHORT);
+	    CHECK(u >= 0, "make_unknown: repeating succeeds");
+	}
+	hash0 = vnp->vn_parameter_hash.vnph_count;
+	calls_before = ghost_err_calls;
+	rc = vnacal_new_add_single_reflect_m(vnp, m1, 1, 1, u, 2);
+	if (rc == -1) {
+	    FAILED_CLEANLY("add with unknown");
+	    CHECK(vnp->vn_equations == eq0 && vnp->vn_measurement_count == std0,
+		    "add with unknown: a failed standard adds nothing");
+	    CHECK(vnp->vn_unknown_parameters == unk0 && vnp->vn_unknown_parameter_list == NULL &&
+		    vnp->vn_unknown_parameter_anchor == &vnp->vn_unknown_parameter_list &&
+		    vnp->vn_parameter_hash.vnph_count == hash0,
+		    "add with unknown: a failed standard leaves no parameter behind (count, list, anchor, hash)");
+	    rc = vnacal_new_add_single_reflect_m(vnp, m1, 1, 1, u, 2);
+	    CHECK(rc == 0, "add with unknown: repeating succeeds");
+	}
+	CHECK(vnp->vn_unknown_parameters == unk0 + 1 && vnp->vn_unknown_parameter_list != NULL &&
+		vnp->vn_unknown_parameter_list->vnpr_parameter == _vnacal_get_parameter(vcp, u) &&
+		vnp->vn_unknown_parameter_list->vnpr_unknown_index == 0 &&
+		vnp->vn_unknown_parameter_list->vnpr_next_unknown == NULL &&
+		vnp->vn_unknown_parameter_anchor == &vnp->vn_unknown_parameter_list->vnpr_next_unknown,
+		"add with unknown: the unknown is registered exactly once, as in the fault-free history");
+	(void)vnacal_delete_parameter(vcp, u);
+    }
+#endif
     REACH("script finished");
 #if VERIF_FAIL_AT > 0
     CHECK(verif_alloc_failed, "infra: the injected fault was never reached (vacuous run)");
